@@ -125,6 +125,27 @@ class Evaluator:
         out = T().visit(copy.deepcopy(e))
         return subst(out, env)
 
+    def _wrapped_value(self, call, facts, env):
+        """`x = _as_list(x)`: a private module-level helper of one argument whose every return is that argument or a container literal around it keeps what is
+        known about the argument (not None stays not None)"""
+        if not (isinstance(call, ast.Call) and isinstance(call.func, ast.Name) and len(call.args) == 1 and not call.keywords and self.cls is not None):
+            return None
+        fn = getattr(self.cls.module, "functions", {}).get(call.func.id)
+        if fn is None or not call.func.id.startswith("_") or len(fn.node.args.args) != 1:
+            return None
+        par = fn.node.args.args[0].arg
+        rets = [r.value for r in ast.walk(fn.node) if isinstance(r, ast.Return)]
+        if not rets or any(r is None for r in rets):
+            return None
+        for r in rets:
+            if isinstance(r, ast.Name) and r.id == par:
+                continue
+            if isinstance(r, (ast.List, ast.Tuple)) and all(isinstance(x, ast.Name) and x.id == par for x in r.elts) and r.elts:
+                continue
+            return None
+        v = self.value(call.args[0], facts, env)
+        return v if v == NOTNONE else None
+
     def inline_call(self, m, call, facts, env, depth):
         params = [a.arg for a in m.node.args.args]
         if m.kind not in ("static",) and params and params[0] in ("self", "cls"):
@@ -190,6 +211,8 @@ class Evaluator:
             n = st.targets[0].id
             f1, e1 = dict(facts), dict(env)
             v = self.value(st.value, facts, env)
+            if v is None:
+                v = self._wrapped_value(st.value, facts, env)
             closed = self.close(st.value, facts, env)
             self._events_in(st.value, facts, env, trail)
             if v is not None:
